@@ -295,6 +295,11 @@ func AnalyseOpt(code []ds.VerifOp, isMain bool, setYields bool) *Result {
 			}
 		case "je", "je.dup", "jne":
 			r.CondJumps++
+			if op.HasInt && op.Int == 0 {
+				// every conditional jump the compiler emits skips at least one instruction once it is patched
+				// (if / while / ternary arms end in a jmp, || skips its right operand): offset 0 = never patched
+				add("jump-unpatched", s.PC, op.Name+" still has the placeholder offset 0")
+			}
 			if !need(1) {
 				continue
 			}
